@@ -19,21 +19,21 @@ import (
 )
 
 type Prog struct {
-	repoDir   string
-	verifDir  string
-	modPath   string
-	fset      *token.FileSet
-	pkgs      []*packages.Package
-	ssaProg   *ssa.Program
-	ssaPkgs   []*ssa.Package
-	cs        *ContractSet
-	funcs     map[string]*ssa.Function // key: pkgpath + "." + RelString
-	byFn      map[*ssa.Function]string
+	repoDir     string
+	verifDir    string
+	modPath     string
+	fset        *token.FileSet
+	pkgs        []*packages.Package
+	ssaProg     *ssa.Program
+	ssaPkgs     []*ssa.Package
+	cs          *ContractSet
+	funcs       map[string]*ssa.Function // key: pkgpath + "." + RelString
+	byFn        map[*ssa.Function]string
 	contractSrc map[string]string // pkgpath -> "repo" | "mirror"
-	overlay   map[string][]byte
-	loadSecs  float64
-	fnIDs     map[string]int
-	fnMu      sync.Mutex
+	overlay     map[string][]byte
+	loadSecs    float64
+	fnIDs       map[string]int
+	fnMu        sync.Mutex
 }
 
 // fnTermByName gives every static function (by its full ssa name) a distinct positive identifier,
